@@ -472,8 +472,8 @@ WINDOWS = {
 FLOW_MIN, FLOW_MAX = 1e-3, 1e3
 TASK_KINDS = {
     # kind: weight of being instantiated in a run, per property
-    'C03': {'flash': 4, 'recycle': 3, 'campaign': 3, 'decanter': 2, 'crystalliser': 2, 'vlle': 1, 'editor': 3},
-    'C04': {'flash': 5, 'recycle': 4, 'campaign': 4.5, 'decanter': 1, 'crystalliser': 1, 'vlle': 0.5, 'editor': 3},
+    'C03': {'flash': 4, 'recycle': 3, 'campaign': 3, 'drain_refill': 1, 'decanter': 2, 'crystalliser': 2, 'vlle': 1, 'editor': 3},
+    'C04': {'flash': 5, 'recycle': 4, 'campaign': 4.5, 'drain_refill': 1.5, 'decanter': 1, 'crystalliser': 1, 'vlle': 0.5, 'editor': 3},
 }
 EDITOR_OPS = {'scale': 2, 'to_phase': 2, 'set_phases': 2, 'set_T': 1, 'set_P': 1, 'restart': 2,
               'reset_cache': 1.5, 'set_rows': 1, 'set_flow': 2, 'set_chem': 1.5}
@@ -798,6 +798,32 @@ class EqWorld(BaseWorld):
                     return ev
                 return self.gen_set_chem(name, r)
             return self.gen_vle(name, t, st, r, keep=0.6)
+        if kind == 'drain_refill':
+            # flash; take every volatile chemical out (what stays is gas / heavy material only); flash what is left
+            # ("nothing to equilibrate"); put the SAME chemicals back; flash again
+            plan = st.get('plan')
+            if not plan:
+                pk = self.pk(name)
+                try:
+                    sn = take_snap(self.streams[name])
+                except Exception:
+                    return None
+                tot = sn.totals()
+                vols = [k for k in pk.vol if tot[k] > 0.]
+                lg = [p for p in sn.phases if p in ('l', 'g')]
+                if not vols or not lg:
+                    return self.gen_vle(name, t, st, r, keep=0.5)
+                ph = 'l' if 'l' in lg else lg[0]
+                plan = [('vle',)]
+                plan += [('set', pk.ids[k], 0.0, sn.phases[0]) for k in vols]
+                plan += [('vle',)]
+                plan += [('set', pk.ids[k], r6(float(tot[k])), ph) for k in vols]
+                plan += [('vle',), ('vle',)]
+                st['plan'] = plan
+            step = plan.pop(0)
+            if step[0] == 'vle':
+                return self.gen_vle(name, t, st, r, keep=0.7)
+            return {'op': 'set_chem', 'stream': name, 'chem': step[1], 'phase': step[3], 'value': step[2]}
         if kind == 'decanter':
             return self.gen_lle(name, st, r)
         if kind == 'crystalliser':
